@@ -30,6 +30,23 @@ class GP(KP):
     def body(self):
         out = []
         while not self.at("}") and self.peek()[0] != "eof":
+            if self.at("#"):
+                toks = []
+                self.eat("#")
+                self.eat("[")
+                while not self.at("]"):
+                    toks.append(self.eat())
+                self.eat("]")
+                if "".join(toks) != 'cfg(feature="verif-hooks")':
+                    raise CannotTranslate(f"attribute #[{' '.join(toks)}] inside a wrapper")
+                self.expr()
+                self.eat(";")
+                continue
+            if self.at("unsafe") and self.at("{", 1):
+                self.eat()
+                inner = self.block()
+                out.extend(inner)
+                continue
             if self.at("let"):
                 self.eat()
                 pat = self.pattern()
@@ -208,6 +225,8 @@ class Conv:
                 binds.append(f"(.eff {self.g(s[1])})")
             else:
                 raise CannotTranslate(f"statement `{s[0]}` in a wrapper")
+        if stmts and stmts[-1][0] == "expr":
+            stmts = stmts[:-1] + [("tail", stmts[-1][1])]   # unit function: the last call is what it does
         if not stmts or stmts[-1][0] != "tail":
             raise CannotTranslate("wrapper without a value")
         t = self.g(stmts[-1][1])
@@ -250,6 +269,15 @@ WANTED = [
     ("src/rate/rate_low.rs", r"RateDecoder < E > for LowRateDecoder", "LowRateDecoder", ["add_original_shard", "add_recovery_shard", "into_parts", "new", "reset"]),
     ("src/rate/rate_default.rs", r"RateEncoder < E > for DefaultRateEncoder", "DefaultRateEncoder", ["add_original_shard", "encode", "into_parts"]),
     ("src/rate/rate_default.rs", r"RateDecoder < E > for DefaultRateDecoder", "DefaultRateDecoder", ["add_original_shard", "add_recovery_shard", "decode", "into_parts"]),
+    # the engines: public primitive -> `#[target_feature]` entry point -> safe body / generic function
+    ("src/engine/engine_ssse3.rs", r"^impl Engine for Ssse3$", "Ssse3", ["fft", "ifft", "mul", "eval_poly"]),
+    ("src/engine/engine_ssse3.rs", r"^impl Ssse3$", "Ssse3", ["fft_private_ssse3", "ifft_private_ssse3", "eval_poly_ssse3"]),
+    ("src/engine/engine_avx2.rs", r"^impl Engine for Avx2$", "Avx2", ["fft", "ifft", "mul", "eval_poly"]),
+    ("src/engine/engine_avx2.rs", r"^impl Avx2$", "Avx2", ["fft_private_avx2", "ifft_private_avx2", "eval_poly_avx2"]),
+    ("src/engine/engine_neon.rs", r"^impl Engine for Neon$", "Neon", ["fft", "ifft", "mul", "eval_poly"]),
+    ("src/engine/engine_neon.rs", r"^impl Neon$", "Neon", ["fft_private_neon", "ifft_private_neon", "eval_poly_neon"]),
+    ("src/engine/engine_nosimd.rs", r"^impl Engine for NoSimd$", "NoSimd", ["fft", "ifft"]),
+    ("src/engine.rs", r"^trait Engine$", "Engine", ["eval_poly"]),
 ]
 
 
